@@ -85,13 +85,16 @@ fn one_request(policy_kind: u8, with_pred: bool, retry_on_reconnect: bool) {
     let mut script = svc::any_script();
     script.never = false;
     script.immediate = true;
+    // the 4th inner call succeeds: with zero delays the whole sequence runs inside ONE poll, so the
+    // number of failures must be bounded for the poll loop to be (ReconnectFuture::poll unwinds 10)
+    script.outcomes[3] = Ok(kani::any());
     let mut s = ReconnectService::new(Inner::new(script), Arc::new(cfg), shared.clone());
     let req: u32 = kani::any();
     let _ = svc::poll_ready_once(&mut s);
     let mut fut = Box::pin(s.call(req));
     let mut out = None;
     let mut step = 0;
-    while step < 4 {
+    while step < 3 {
         if kani::any() {
             shared.mark_connected(); // another request succeeded
         }
@@ -239,7 +242,7 @@ fn c20_reconnect_retry_unready() {
 
 macro_rules! proofs { ($($name:ident = ($k:expr, $p:expr, $r:expr)),*) => {$(
     #[kani::proof]
-    #[kani::unwind(6)]
+    #[kani::unwind(11)]
     #[kani::stub(std::time::Instant::now, tokio::model::std_instant_now)]
     #[kani::stub(ReconnectPolicy::delay_for_attempt, scripted_delay)]
     fn $name() { one_request($k, $p, $r) }
